@@ -216,6 +216,8 @@ def decode_ix(ix, kind=None):
         if not vals:
             return np.array([], dtype=(float if kind == "f" else (object if kind == "O" else int)))
         return np.array(vals)
+    if tag == "ndu":      # positions as an array of UNSIGNED integers (what np.nonzero / np.unique of unsigned data give)
+        return np.array(list(ix[1]), dtype=np.uint8)
     if tag == "m":
         return np.array(ix[1], dtype=bool)
     if tag == "ml":
@@ -246,7 +248,7 @@ def resolve(labels, kind, ix, mode="label", tol=None, keepdims=False):
                     raise Unspecified("non-int position")
                 p = int(rng[ix[1]])
                 return [("keep", [p])] if keepdims else [("drop", p)]
-            if tag in ("l", "nd"):
+            if tag in ("l", "nd", "ndu"):
                 if any(isinstance(v, bool) or not isinstance(v, int) for v in ix[1]):
                     raise Unspecified("non-int positions")
                 return [("keep", [int(rng[v]) for v in ix[1]])]
@@ -259,7 +261,7 @@ def resolve(labels, kind, ix, mode="label", tol=None, keepdims=False):
     if tag in ("s", "nps"):
         alts = locate_scalar(labels, ix[1], kind, tol)
         return [("keep", [p]) for p in alts] if keepdims else [("drop", p) for p in alts]
-    if tag in ("l", "nd"):
+    if tag in ("l", "nd", "ndu"):
         per = [locate_scalar(labels, v, kind, tol) for v in ix[1]]
         out = [("keep", list(c)) for c in itertools.product(*per)] if per else [("keep", [])]
         return out[:8]
